@@ -89,4 +89,9 @@ CHECKS = {
         technique="field-by-field metadata monitor: returned metadata, the cache's kept copy (cold and warm) and the store's copy (store_key) compared with the reference interpreter's record (last command, namespace, attributes, volatility, file name, links, sub-queries) and with type identifier / data characteristics recomputed from the actual value; command version from the registry",
         text="Seeded C01-vocabulary queries (successful, failing, links, sub-evaluations, namespaces, attribute commands, file names) under no cache, four cache kinds cold+warm and two store_key targets. Exploration.",
         note="Only the fields the statement names are compared; failure metadata may be filed under the canonical or the as-typed text."),
+    "C16": dict(
+        category="fault_enumeration", design_ref="DESIGN.md section 4, C16 and 3.6",
+        technique="fork + file-system-operation crash injector: the operation's trace of mutating file-system operations is recorded, then the process is killed (os._exit) before every operation and inside every write (torn variants); a fresh cache/store object reads the entry in both orders and the observation is classified (nothing / complete old / complete new, bystander unchanged); interposer trace cross-validated against strace in the thorough tier",
+        text="Every operation boundary and three torn variants per write of every case (6 components x store fresh / overwrite same and other type / metadata store / remove / recursive removedir x value types incl. > 64 KiB) are enumerated exhaustively; the fault model is process death.",
+        note="Power loss (unsynced pages, directory-entry ordering) is not modelled: the code never calls fsync. A complete value accompanied by default ('external') store metadata is accepted; contradictory size/md5/caller fields are not."),
 }
